@@ -39,6 +39,7 @@
 //	{"op":"addrealm","realm":"realm3"}  {"op":"removerealm","realm":"realm3"}
 //	{"op":"sleep","ms":1500}
 //	{"op":"burst","ops":[...]}                 released together, no synctest.Wait in between
+//	{"op":"selftest_hang"}                     self-test of the parent's watchdog (blocks on a mutex)
 //
 // "repeat":n publishes n messages back to back.  "hold_until" on a publish
 // holds the publisher's handler inside the realm's PublishFilterFactory (no
@@ -69,7 +70,6 @@ type SessionSpec struct {
 	Q     int    `json:"q"`
 	Wrap  bool   `json:"wrap"`
 	Raw   bool   `json:"raw,omitempty"`
-	NoPPT bool   `json:"noppt,omitempty"`
 }
 
 // Op is one step of a history.
@@ -116,7 +116,7 @@ type History struct {
 // usesSession tells whether the op kind addresses session S.
 func usesSession(kind string) bool {
 	switch kind {
-	case "join", "hello_goodbye", "addrealm", "removerealm", "sleep", "burst":
+	case "join", "hello_goodbye", "addrealm", "removerealm", "sleep", "burst", "selftest_hang":
 		return false
 	}
 	return true
@@ -226,12 +226,28 @@ func parseHistory(b []byte) (*History, error) {
 	return &h, nil
 }
 
-func (h *History) clone() *History {
-	c, err := parseHistory(h.canonical())
-	if err != nil {
-		panic(err)
+func cloneOps(ops []Op) []Op {
+	if ops == nil {
+		return nil
+	}
+	c := make([]Op, len(ops))
+	copy(c, ops)
+	for i := range c {
+		c[i].Ops = cloneOps(c[i].Ops)
 	}
 	return c
+}
+
+func (h *History) clone() *History {
+	c := *h
+	c.Realms = append([]string{}, h.Realms...)
+	c.Sessions = append([]SessionSpec{}, h.Sessions...)
+	c.Ops = cloneOps(h.Ops)
+	if h.Close != nil {
+		cl := *h.Close
+		c.Close = &cl
+	}
+	return &c
 }
 
 // flatOps calls f for every op, including the ops inside bursts.
